@@ -119,21 +119,35 @@ def run(ctx):
             names['NmFormula'] = ('ref', fk[0], fk[1], fk[2], True, True)
         wb = ref.Workbook(cells, names)
         xpath = os.path.join(out, f's{ctx.shard}.xlsx')
+        same_object = rng.random() < 0.5     # one model through all points
+        model = None
         for point in ('uncompiled', 'compiled', 'evaluated', 'overwritten'):
             ext = rng.choice(EXTS)
+            if same_object and model is not None and point != 'uncompiled':
+                try:
+                    if point == 'compiled':
+                        model.build_code()
+                    reuse = True
+                except Exception as e:  # noqa
+                    reuse = False
+            else:
+                reuse = False
             try:
-                if use_xlsx:
-                    from xlcalculator import ModelCompiler
-                    build.write_xlsx(wb, xpath, list(sheets))
-                    # a date constant (style 1 = date format)
-                    model = ModelCompiler().read_and_parse_archive(
-                        xpath, build_code=(point != 'uncompiled'))
-                    os.remove(xpath)
-                else:
-                    from xlcalculator import ModelCompiler
-                    model = ModelCompiler().read_and_parse_dict(
-                        build.dict_of(wb), default_sheet=s0,
-                        build_code=(point != 'uncompiled'))
+              if reuse:
+                pass
+              else:
+                  if use_xlsx:
+                      from xlcalculator import ModelCompiler
+                      build.write_xlsx(wb, xpath, list(sheets))
+                      # a date constant (style 1 = date format)
+                      model = ModelCompiler().read_and_parse_archive(
+                          xpath, build_code=(point != 'uncompiled'))
+                      os.remove(xpath)
+                  else:
+                      from xlcalculator import ModelCompiler
+                      model = ModelCompiler().read_and_parse_dict(
+                          build.dict_of(wb), default_sheet=s0,
+                          build_code=(point != 'uncompiled'))
             except Exception as e:  # noqa
                 ctx.fail(f'building the model raised {e!r}',
                          {'cells': build.dict_of(wb)}, monitor='construction',
